@@ -98,6 +98,10 @@ InterpolantProperties == Dim = 1 => \A c \in Axis, q \in Quarters :
     /\ (Poly[3] = 0 /\ Poly[4] = 0 => Interp128(c, q) = 2 * F64(c, q))
     /\ Abs(Interp128(c, q) - 2 * F64(c, q)) <= 20 * MaxF2(c)
 
+\* the nodes Interp128(c, .) reads (values at c, c+1; slopes from c-1..c+1 and c..c+2) are exactly the cell's stencil
+InterpNodes(c) == {c - 1, c, c + 1, c + 2}
+InterpolantReadsItsStencil == Dim = 1 => \A c \in Axis : {<<u>> : u \in InterpNodes(c)} = Stencil(<<c>>)
+
 View == <<sampled, calculated>>
 Emit == PrintT(ToJson([h |-> hist']))
 =============================================================================
